@@ -92,8 +92,8 @@ Proof.
   destruct (string_items (kid "Fields" ref)) as [|p1 [|p2 [|p3 l]]]; try discriminate.
   - inversion H; subst. pose proof (candidates_length res tables "" name) as L.
     match goal with |- context [match ?l with [] => _ | _ => _ end] => set (cols := l) in * end.
-    destruct cols as [|c1 [|c2 cs]]; simpl in L |- *; rewrite <- L; simpl; auto; lia.
+    destruct cols as [|c1 [|c2 cs]]; unfold err_at; try destruct (loc_of res =? 0)%Z; simpl in L |- *; rewrite <- L; simpl; auto; lia.
   - inversion H; subst. pose proof (candidates_length res tables alias name) as L.
     match goal with |- context [match ?l with [] => _ | _ => _ end] => set (cols := l) in * end.
-    destruct cols as [|c1 [|c2 cs]]; simpl in L |- *; rewrite <- L; simpl; auto; lia.
+    destruct cols as [|c1 [|c2 cs]]; unfold err_at; try destruct (loc_of res =? 0)%Z; simpl in L |- *; rewrite <- L; simpl; auto; lia.
 Qed.
